@@ -284,7 +284,7 @@ func kpCase(w *bufio.Writer, r *u.Rng, dist map[string]int, caseNo int) {
 		case 5: // header of another packet of the same sender (replayed header, foreign payload)
 			var cands []*kpPacket
 			for _, q := range pkts {
-				if q.from == p.from && q.idx != p.idx {
+				if q.from == p.from && q.idx != p.idx && !bytes.Equal(q.hdr, p.hdr) {
 					cands = append(cands, q)
 				}
 			}
